@@ -305,13 +305,16 @@ def check(prop, tier, seed):
         for v in r["viol"]:
             rep.violation(v["key"], v["detail"], replay={"kind": "c18", "item": it})
     rep.extra.update({"optimizers_observed": len(seen), **{f"total_{k}": v for k, v in tot.items()}})
+    rep.extra["pairs_with_a_stale_read_explored_further"] = sum(r.get("amplified", 0) for r in res if not isinstance(r, Lost))
+    rep.extra["stale_reads_without_any_observable_effect_not_reported"] = sum(r.get("stale_unconfirmed", 0) for r in res if not isinstance(r, Lost))
     rep.sample({"optimizer": names[0], "steps": ["Cls()", "Cls().optimize(task) -> ValueError, 0 cycles", "set_config_parameters(d) vs Config(**d) on base + perturbed dictionaries",
                                                   "seeded run(Cls(cfg)) == run(Cls(); set_config_parameters(d)) under the stale-read monitor"],
                 "base_config": universe.base_configs()[names[0]]})
     rep.rule = ("for each of the 84 exported classes: empty construction, refusal without configuration (zero cycles, "
                 "zero objective calls), differential set_config_parameters(d) vs the real config model on base / valid "
                 "perturbed / invalid dictionaries (6 magnitudes, missing keys, wrong types, None, extra keys), seeded run "
-                "equivalence with H-attr stale-read monitor; distinct = (optimizer, dictionary or run) pairs judged")
+                "equivalence with H-attr stale-read monitor (a stale read is reported only with an observable difference, from this pair or up "
+                "to 8 further pairs); distinct = (optimizer, dictionary or run) pairs judged")
     rep.require("optimizers_observed", len(seen), 84)
     rep.require("dictionaries_accepted", tot["accepted"], 84 * 3)
     rep.require("dictionaries_rejected", tot["rejected"], 84 * 2)
